@@ -26,7 +26,7 @@ FAMILIES = {
 NULLABLE = {'Int64', 'UInt8', 'float64', 'float32', 'Float64', 'boolean', 'object-bool', 'object-str', 'string',
             'category', 'category-unused', 'datetime64[ns]', 'datetime64[us]', 'datetime64[ms]', 'datetime64[s]', 'datetime-tz',
             'object-date', 'str'}
-STR_POOL = ['a', 'b', 'abc', 'ab', 'AB', '', ' ', 'x y', 'été', '日本', 'a1', '12', 'id-7', 'id-12', 'Zed', 'zed',
+STR_POOL = ['a', 'b', 'abc', 'ab', 'AB', '', ' ', 'x y', 'abc\n', '#tag', 'ab1', 'été', '日本', 'a1', '12', 'id-7', 'id-12', 'Zed', 'zed',
             "it's", 'q"t', 'back\\slash', 'line\nbreak', 'tab\t', 'é', 'ß', '٣', '²', 'a.b', '^-', 'foo', 'bar']
 FLOAT_POOL = [0.0, 1.0, -1.0, 0.5, -0.5, 2.25, 100.0, -100.0, 1e10, -1e10, 0.125, 3.0, 7.0, -7.0, 1e-3 * 1024,
               123456.75, -0.0, 100000.375, 2.0000019073486328, 10000000000.5, 4.0, 12.0]
@@ -118,10 +118,20 @@ def gen_frame(rng, fams=None, maxrows=10, maxcols=3):
         n = rng.randint(21, 26)
     ncol = rng.randint(1, maxcols)
     fams = fams or [f for f in FAMILIES]
+    sfams = [f for f in fams if FAMILIES[f] in ('string', 'other') and f != 'category-unused']
+    codes = None
+    if sfams and rng.random() < 0.05:
+        # more than a dozen distinct codes of one shape, the later ones (in sorted order) from a wider character class
+        codes = ['%04d' % (1001 + i) for i in range(12)] + ['A001', 'B002', 'C003', 'D004', 'zz01']
+        n = len(codes) + rng.randint(0, 3)
     cols = []
     for j in range(ncol):
         fam = rng.choice(fams)
         cols.append({'name': rng.choice(NAME_POOL) + str(j), 'fam': fam, 'cells': gen_cells(rng, fam, n)})
+    if codes:
+        cells = codes + [rng.choice(codes + [None]) for _ in range(n - len(codes))]
+        rng.shuffle(cells)
+        cols[0] = {'name': cols[0]['name'], 'fam': rng.choice(sfams), 'cells': cells}
     return {'nrows': n, 'cols': cols}
 
 
